@@ -85,6 +85,7 @@ HitOK(kind, lam, v, t, slack) == v.has => t <= v.at + Lam(kind, lam) + slack
 MaxAgeOf(cc) == CASE cc \in {"maxage", "nostore_maxage", "private_maxage"} -> 60
                   [] cc = "maxage0" -> 0
                   [] cc = "maxage1" -> 1
+                  [] cc = "maxage6" -> 6
                   [] OTHER -> -1
 HasFresh(h) == MaxAgeOf(h.cc) >= 0 \/ h.expires \in {"future", "past"}
 (* Expires = Date + 120 s (future) or Date - 120 s (past); the skew of Date against the real clock cancels *)
